@@ -53,6 +53,14 @@ the trait object `dyn PieceA<T>` -> the structure `PieceA` and its two values; p
 `0..n`, a constant array, the piece walk: `EmitIO.for_`); flush / sync and the dirty flag (dbxxx.rs `flush`, `sync_all`,
 `sync_data` -> FlushOps.lean in the monad `Abyss.FlushM` over abstract per-file actions, `emit_flushops`; `dirty: true` in
 the constructor and the position of `self.dirty = true;` in `put_kt` / `del_kt` pinned).
+Sixth batch: the create / open path: `VarFile::set_file_length` (`buf_file.set_len` = `FileM.setLen`); the free functions
+`write_*_init_header` / `check_*_header` of key.rs / val.rs / htx.rs (`io_find_free_fns`; `f(&mut file, ..)` is the translated free
+function of the same file; byte arrays `[0u8, …]` / `[0u8; N]`, `a == b` on byte arrays, `file.read_exact(&mut buf)?` on a local
+array = `FileM.readPad N`, see IO_READ_EXACT); the part of `KeyFile`/`ValueFile`/`HtxFile::open_with_params` after the buffer is
+built (IO_OPEN: the statements in front of `let file_length …` are compared token-wise with the configured text and dropped; the
+local cache struct around the file, IO_CACHE_CTORS; the handle `Self(Rc::new(RefCell::new(c)))` is the data of `c`;
+`let buckets_size = match params.buckets_size { … }` is `bucketsOf p`); `FileDbXxxInner::open_with_params` -> `openMap`
+(`emit_open_map`: the three opens, their order and the struct literal with `dirty: true` pinned by shape).
 When the translation fails, Funcs.lean (and FileOps.lean, Engine.lean; FileOps.lean and Engine.lean when the I/O
 stage failed, Engine.lean alone when only the engine stage failed; every time FlushOps.lean, which alone is replaced when
 only the flush stage failed) is replaced by a file that does not build.
@@ -205,6 +213,10 @@ class P:
         if name == "debug_assertions":
             return False
         if name == "test":
+            return False
+        if name == "abyssiniandb_verif":
+            # `--cfg abyssiniandb_verif`: the I/O trace / layout probe of the verification harness, never set by a
+            # default build (not a feature of Cargo.toml)
             return False
         fail("%s: unsupported cfg predicate %r" % (self.where, name))
 
@@ -494,6 +506,10 @@ class P:
         if k == "bstr":
             self.next()
             return ("array", [("num", b) for b in parse_bstr(v)])
+        if k == "str":
+            # a string literal: parsed (it occurs in statements under a false `#[cfg]`, which are dropped), translated nowhere
+            self.next()
+            return ("str", v)
         if v == "(":
             self.next()
             items = []
@@ -1641,7 +1657,16 @@ IO_PRIMS = {
 IO_BUF_PRIMS = {
     "write_zero": ("FileM.writeZero", ["int"], "unit", None),
     "read_u8": ("FileM.readU8", [], "int", "u8"),
+    # `rabuf::FileSetLen::set_len` of the buffer: truncate / extend with zeros, a cursor beyond the new end is clamped
+    "set_len": ("FileM.setLen", ["int"], "unit", None),
 }
+# `file.read_exact(&mut buf)?;` with `buf` a local byte array of a length that is evident (`let mut buf = [0u8, …];`):
+# `std::io::Read::read_exact`, the default loop over `impl Read for VarFile` = `buf_file.read` (pinned in io_pin_open:
+# `read_exact` is not overridden).  rabuf's `read` copies out of the chunk of the cursor and does not look at the end of
+# the file (`RaBuf.read`/`readExact` of Abyss/RaBuf.lean: it never returns 0 bytes, so `UnexpectedEof` cannot happen):
+# at the end of a short file the buffer is filled with the zero padding of the chunk.  That is `FileM.readPad n`, not
+# the strict `FileM.readBytes n`.
+IO_READ_EXACT = "FileM.readPad"
 # statements `self.<m>(..)?;` that are left out, with the reason written to the doc comment
 # assignments that are left out (engine): the dirty flag belongs to the buffer model
 IO_DROPPED_ASSIGN = {"self.dirty": "`self.dirty = true` (the dirty flag belongs to the buffer model: `flush`/`sync` "
@@ -1663,6 +1688,11 @@ IO_SIG_TYPES = {"PieceOffset<T>": "Offset", "Offset<T>": "Offset", "PieceSize<T>
                 # byte sequences; a key `KT: DbMapKeyType` is its bytes (`as_bytes` / `from_bytes` / `clone` erased)
                 "Vec<u8>": "bytes", "&[u8]": "bytes", "rabuf::MaybeSlice": "bytes", "KT": "bytes", "&KT": "bytes",
                 "&mutVarFile": "vfile",
+                # the create / open path: `type HeaderSignature = [u8; 8];` (pinned in io_pin_open) is a byte sequence;
+                # `params: &FileDbParams` is its field `buckets_size: HashBucketsParam` (the other fields are only read by
+                # the part of `open_with_params` that is pinned and dropped); `path: P`, `ks_name: &str` are only read there
+                "HeaderSignature": "bytes", "&FileDbParams": "dbparams", "P": "unused", "&str": "unused",
+                "NodePieceOffset": "Offset",
                 "PieceOffset<Key>": "Offset", "PieceOffset<Value>": "Offset", "PieceSize<Key>": "Size", "PieceSize<Value>": "Size",
                 "Rc<RefCell<FileDbXxxInner<KT>>>": "dbmap", "Box<dynPieceA<T>>": "piecea",
                 "RecordSizeStats<Key>": "sizestats", "RecordSizeStats<Value>": "sizestats",
@@ -1684,8 +1714,11 @@ CTX_TYPES = {"c": "FileCfg", "kc": "FileCfg", "vc": "FileCfg", "bucketsSize": "N
 # constants of a file that the translated functions of that file may use: Rust name -> name in Consts.lean
 IO_CONSTS = {IO_HTX: {"HTX_HEADER_SZ": "htxHeaderSz", "HTX_HT_SIZE_OFFSET": "htxHtSizeOffset",
                       "HTX_ITEM_COUNT_OFFSET": "htxItemCountOffset"}}
-IO_CONSTS[IO_KEY] = {"DAT_HEADER_SZ": "keyHeaderSz", "REC_SIZE_ARY": ("keySizeAry", "intlist")}
-IO_CONSTS[IO_VAL] = {"DAT_HEADER_SZ": "valHeaderSz", "REC_SIZE_ARY": ("valSizeAry", "intlist")}
+IO_CONSTS[IO_KEY] = {"DAT_HEADER_SZ": "keyHeaderSz", "REC_SIZE_ARY": ("keySizeAry", "intlist"),
+                     "DAT_HEADER_SIGNATURE": ("keySig1", "bytes")}
+IO_CONSTS[IO_VAL] = {"DAT_HEADER_SZ": "valHeaderSz", "REC_SIZE_ARY": ("valSizeAry", "intlist"),
+                     "DAT_HEADER_SIGNATURE": ("valSig1", "bytes")}
+IO_CONSTS[IO_HTX]["HTX_HEADER_SIGNATURE"] = ("htxSig1", "bytes")
 
 
 def io_const_name(x):
@@ -1804,6 +1837,45 @@ IO_OWNERS = {
     "ValueFile": ("impl ValueFile", "locked.0", None),
     # the walk over all pieces of a record file (piece.rs)
     "PieceOffsetIter": ("impl<T: PartialEq + Copy + PartialOrd> PieceOffsetIter<T>", None, None),
+    # the free functions of key.rs / val.rs / htx.rs (no `impl` header: top-level items); the VarFile is a parameter
+    "KeyFree": (None, None, None), "ValFree": (None, None, None), "HtxFree": (None, None, None),
+    # `open_with_params` of the three handles, the part after the buffer is built (IO_OPEN): the VarFile is the local `file`
+    "KeyFileOpen": ("impl<KT: DbMapKeyType> KeyFile<KT>", "file", None),
+    "ValueFileOpen": ("impl ValueFile", "file", None),
+    "HtxFileOpen": ("impl HtxFile", "file", None),
+}
+# the owner of the free functions of a file: `f(..)` in a translated function of that file is the translated free function `f`
+IO_FREE_OWNER = {IO_KEY: "KeyFree", IO_VAL: "ValFree", IO_HTX: "HtxFree"}
+
+# `open_with_params` of `KeyFile<KT>` / `ValueFile` / `HtxFile`: the statements in front of `let file_length … = file.seek_to_end()?;`
+# (the piece manager, the path, `OpenOptions`, the `match` on the buffer-size parameter that builds the buffer `file`) are
+# compared token-wise with this text and dropped (named in the doc comment); what follows is translated.
+IO_OPEN_PREFIX = """
+    let piece_mgr = PieceMgr::new(&%(fo)s, &%(sa)s);
+    let mut pb = path.as_ref().to_path_buf();
+    pb.push(format!("{ks_name}.%(ext)s"));
+    let std_file = OpenOptions::new().read(true).write(true).create(true).truncate(false).open(pb)?;
+    let mut file = match params.%(ext)s_buf_size {
+        FileBufSizeParam::Size(val) => {
+            let %(pf)s_buf_chunk_size = CHUNK_SIZE;
+            let %(pf)s_buf_num_chunks = (val / %(pf)s_buf_chunk_size).max(2);
+            VarFile::with_capacity(piece_mgr, "%(ext)s", std_file, %(pf)s_buf_chunk_size, %(pf)s_buf_num_chunks.try_into().unwrap(),)?
+        }
+        FileBufSizeParam::PerMille(val) => { VarFile::with_per_mille(piece_mgr, "%(ext)s", std_file, CHUNK_SIZE, val)? }
+        FileBufSizeParam::Auto => VarFile::new(piece_mgr, "%(ext)s", std_file)?,
+    };
+"""
+# kind -> (substitutions of the prefix, the cache struct the handle wraps, class of the data of the handle = of the Lean value)
+IO_OPEN = {
+    "key": ({"fo": "REC_SIZE_FREE_OFFSET", "sa": "REC_SIZE_ARY", "ext": "key", "pf": "dat"}, "VarFileKeyCache", "unit"),
+    "val": ({"fo": "REC_SIZE_FREE_OFFSET", "sa": "REC_SIZE_ARY", "ext": "val", "pf": "dat"}, "VarFileValueCache", "unit"),
+    "htx": ({"fo": "HTX_SIZE_FREE_OFFSET", "sa": "HTX_SIZE_ARY", "ext": "htx", "pf": "idx"}, "VarFileHtxCache", "int"),
+}
+# the cache structs a handle wraps: constructor expression (AST, `file` = the VarFile) -> (struct, data field or None)
+IO_CACHE_CTORS = {
+    ("VarFileKeyCache",): ("VarFileKeyCache", None),        # `VarFileKeyCache(file, PhantomData)`
+    ("VarFileValueCache",): ("VarFileValueCache", None),    # `VarFileValueCache(file, PhantomData)`
+    ("VarFileHtxCache", "new"): ("VarFileHtxCache", "buckets_size"),   # `VarFileHtxCache::new(file)`: `buckets_size: 0` (pinned)
 }
 
 
@@ -1829,6 +1901,8 @@ def io_lean_ty(t):
         return "List (Nat × Nat)"
     if t == "intlist":
         return "List Nat"
+    if t == "dbparams":
+        return "HashBucketsParam"
     if isinstance(t, tuple) and t[0] == "tuple":
         return " × ".join(io_lean_ty(x) if not isinstance(x, tuple) else "(" + io_lean_ty(x) + ")" for x in t[1])
     if isinstance(t, tuple) and t[0] == "option" and t[1] is not None:
@@ -1965,6 +2039,11 @@ def io_assigned(stmts, where):
                     v = e_[1][1][0]                      # `v.push(..);` / `v.touch_size(..);` changes `v`
                     if v not in decl and v not in out:
                         out.append(v)
+                for n_ in io_walk(e_):
+                    if n_[0] == "mcall" and n_[2] == "read_exact" and len(n_[3]) == 1 and n_[3][0][0] == "path" and len(n_[3][0][1]) == 1:
+                        v = n_[3][0][1][0]                   # `file.read_exact(&mut v)?;` overwrites `v`
+                        if v not in decl and v not in out:
+                            out.append(v)
                 ex(st[1], decl)
             elif k == "for":
                 ex(st[2], decl)
@@ -2089,6 +2168,30 @@ def io_find_methods(repo, feats, relpath, header):
     return found
 
 
+def io_find_free_fns(repo, feats, relpath):
+    """the top-level functions of a file whose `#[cfg]` attributes hold for the default features:
+    name -> list of (tokens from `fn` on, description)"""
+    toks = tokenize(strip_comments(open(os.path.join(repo, relpath)).read()))
+    found = {}
+    for a, s_, e in split_items(toks, 0, len(toks)):
+        j = s_
+        if toks[j][1] == "pub":
+            j += 1
+            if toks[j][1] == "(":
+                while toks[j][1] != ")":
+                    j += 1
+                j += 1
+        if toks[j][1] != "fn":
+            continue
+        name = toks[j + 1][1]
+        pa = P(toks[a:s_], feats, "%s::%s" % (relpath, name))
+        if not pa.attrs():
+            continue
+        found.setdefault(name, []).append((toks[j:e], "(free function)" + (
+            (" (" + " ".join("`%s`" % c for c in pa.last_cfg) + ")") if pa.last_cfg else "")))
+    return found
+
+
 def io_find_item_tokens(repo, relpath, lead):
     """token texts (with the attributes) of the one top-level item that starts with the tokens `lead`"""
     toks = tokenize(strip_comments(open(os.path.join(repo, relpath)).read()))
@@ -2173,7 +2276,7 @@ class IoParam:
     handles = ()                      # … and the Lean parameters of its handle fields
 
     def lean_params(self):
-        if self.cls in ("vfile", "dbmap"):
+        if self.cls in ("vfile", "dbmap", "unused") or (self.cls == "dbparams" and self.lean is None):
             return []
         if self.state:
             return list(self.handles) + [("st", io_lean_ty(("tuple", [fc for _f, fc, _ln, _inp in self.fields])))]
@@ -2362,6 +2465,8 @@ class EmitIO:
         self.guards = None            # list that collects the underflow guards of `a - b`, where the statement can emit them
         self.vf_texts = set(f.vf_texts)
         self.handles = {}             # engine: `locked_key` (of `let mut locked_key = self.key_file.0.borrow_mut();`) -> "key"
+        self.arrlen = {}              # local byte array `let mut v = [0u8, …];` -> its length (the `n` of `read_exact(&mut v)`)
+        self.caches = {}              # local cache struct around the VarFile (IO_CACHE_CTORS) -> (struct, key of its data or None)
         # the names of the context parameters are reserved where the function has that parameter (of the iterator
         # functions none has one: `let buckets_size = self.buckets_size;` is an ordinary local there)
         self.reserved = IO_RESERVED + (tuple(x for x in IO_RESERVED_ENGINE if x in f.needs or f.eng_self) if f.engine else ()) \
@@ -2373,7 +2478,7 @@ class EmitIO:
             self.pristine.add(txt)
             self.width[txt] = wd
         for p in f.params:
-            if p.cls in ("vfile", "dbmap", "piecea"):
+            if p.cls in ("vfile", "dbmap", "piecea", "unused") or (p.cls == "dbparams" and p.lean is None):
                 continue
             if p.fields is not None:
                 self.vt[p.rust] = p.cls
@@ -2415,6 +2520,7 @@ class EmitIO:
             self.order.remove(v)
         self.order.append(v)
         self.width.pop(v, None)
+        self.arrlen.pop(v, None)
         self.pristine.discard(v)
         self.forget(v)
         return ln
@@ -2628,6 +2734,8 @@ class EmitIO:
                 return ("prim", IO_PRIMS[name])
             if name == "seek":
                 return ("seek", None)
+            if name == "read_exact":
+                return ("readexact", None)
             if ("VarFile", name) in self.table:
                 return ("fn", self.table[("VarFile", name)])
             return ("unknown-vf", None)
@@ -2693,7 +2801,20 @@ class EmitIO:
                     return self.names[key], self.vt[key]
                 fail("%s: the field `%s` is read before it is assigned (it is configured as not being an input "
                      "of the function)" % (w, key))
+            if io_text(e) in self.vt and e[1][0] == "path" and e[1][1][0] in self.caches:
+                return self.names[io_text(e)], self.vt[io_text(e)]     # `file_nc.buckets_size`: the data of a local cache struct
             fail("%s: field access `%s` is outside the imperative I/O subset" % (w, self.text(e)))
+        if k in ("array", "repeat"):
+            # `[0u8, 0u8, …]` / `[0u8; N]`: a byte array (only literals that fit a `u8`; the element type is that of the
+            # `&[u8]` / `[u8; N]` it is used as)
+            items = e[1] if k == "array" else [e[1]]
+            if not items or any(x[0] != "num" or x[1] >= 256 for x in items):
+                fail("%s: an array expression whose elements are not `u8` literals" % w)
+            if k == "array":
+                return "[" + ", ".join(str(x[1]) for x in items) + "]", "bytes"
+            if e[2][0] != "num":
+                fail("%s: `[x; n]` with a length that is not a literal" % w)
+            return "(List.replicate %d %d)" % (e[2][1], items[0][1]), "bytes"
         if k == "tuple":
             if not e[1]:
                 return "()", "unit"
@@ -2823,6 +2944,9 @@ class EmitIO:
                     fail("%s: `%s` on something that is not a condition" % (w, op))
                 return "(%s %s %s)" % (a, op, b), "bool"
             (a, ta), (b, tb) = self.px(e[2]), self.px(e[3])
+            if op in ("==", "!=") and ta == "bytes" and tb == "bytes":
+                # `[u8; N] == [u8; N]` (arrays of one length, the type checker sees to that): equality of the lists
+                return "(%s %s %s)" % (a, op, b), "bool"
             if op in ("<", ">", "<=", ">=", "==", "!="):
                 if ta != tb or ta not in NUMERIC:
                     fail("%s: comparison `%s` of values of classes %r and %r" % (w, op, ta, tb))
@@ -2974,17 +3098,41 @@ class EmitIO:
     def is_monadic(self, e):
         k = e[0]
         if k == "call":
-            return e[1] == ["Ok"]
+            return e[1] == ["Ok"] or self.free_fn(e) is not None
         if k == "mcall":
             if e[2] == "map":
                 return self.is_monadic(e[1])
             r = self.resolve(e[1], e[2])
-            return r is not None and r[0] in ("prim", "fn", "dropped", "seek", "trait")
+            return r is not None and r[0] in ("prim", "fn", "dropped", "seek", "trait", "readexact")
         if k == "block":
             return e[2] is not None and self.is_monadic(e[2])
         if k == "if":
             return self.is_monadic(e[2]) or (e[3] is not None and self.is_monadic(e[3]))
         return False
+
+    def free_fn(self, e):
+        """`f(..)` with `f` a translated free function of the file of this function: its IoFn"""
+        if e[0] == "call" and len(e[1]) == 1 and self.f.rel in IO_FREE_OWNER:
+            return self.table.get((IO_FREE_OWNER[self.f.rel], e[1][0]))
+        return None
+
+    def handle_value(self, e):
+        """`Self(Rc::new(RefCell::new(c)))` with `c` a local cache struct around the VarFile: the handle (`KeyFile<KT>`,
+        `ValueFile`, `HtxFile`; definitions pinned) is represented by the data of its cache struct (the file is the state of
+        the monad): (Lean text, class) = `()` / the `buckets_size` of the `VarFileHtxCache`"""
+        if not (e[0] == "call" and e[1] == ["Self"] and len(e[2]) == 1 and e[2][0][0] == "call" and e[2][0][1] == ["Rc", "new"]
+                and len(e[2][0][2]) == 1 and e[2][0][2][0][0] == "call" and e[2][0][2][0][1] == ["RefCell", "new"]
+                and len(e[2][0][2][0][2]) == 1 and e[2][0][2][0][2][0][0] == "path" and len(e[2][0][2][0][2][0][1]) == 1):
+            return None
+        c = e[2][0][2][0][2][0][1][0]
+        if c not in self.caches:
+            return None
+        sname, key = self.caches[c]
+        if self.f.open_kind is None or IO_OPEN[self.f.open_kind][1] != sname:
+            fail("%s: `Self(Rc::new(RefCell::new(%s)))` of a `%s`: not the cache struct of this handle" % (self.where, c, sname))
+        if key is None:
+            return "()", "unit"
+        return self.names[key], self.vt[key]
 
     def args(self, args, classes, what):
         if len(args) != len(classes):
@@ -3032,6 +3180,8 @@ class EmitIO:
             if p.cls == "vfile":
                 if self.text(a) not in self.vf_texts:
                     fail("%s: %s: the `&mut VarFile` argument is not the VarFile of this function" % (w, what))
+            elif p.cls == "unused" or (p.cls == "dbparams" and p.lean is None):
+                pass
             elif p.fields is not None:
                 struct_arg(p, a)
             else:
@@ -3053,6 +3203,12 @@ class EmitIO:
     def mex(self, e):
         k = e[0]
         w = self.where
+        if k == "call" and self.free_fn(e) is not None:
+            t, ty = self.call_fn(self.free_fn(e), None, e[2], e[1][0])
+            return [t], ty
+        if k == "call" and e[1] == ["Ok"] and len(e[2]) == 1 and self.handle_value(e[2][0]) is not None:
+            t, ty = self.handle_value(e[2][0])
+            return ["pure " + t], ty
         if k == "call" and e[1] == ["Ok"] and len(e[2]) == 1:
             if self.is_struct_expr(e[2][0]):
                 name, sv = self.px_struct(e[2][0])
@@ -3119,6 +3275,9 @@ class EmitIO:
                     return ["FileM.seekBack" + self.args([a[2][0][1][1]], ["int"], "SeekFrom::Current")], "int"
                 fail("%s: only `seek(SeekFrom::Start(x))`, `seek(SeekFrom::End(0))`, `seek(SeekFrom::Current(n as i64))`, "
                      "`seek(SeekFrom::Current(-(n as i64)))` with `n: u32` are supported" % w)
+            if r is not None and r[0] == "readexact":
+                fail("%s: `%s.read_exact(..)` is only supported as the statement `%s.read_exact(&mut buf)?;` with `buf` a local "
+                     "byte array declared as `let mut buf = [0u8, …];` (its length is the number of bytes read)" % (w, rt, rt))
             if r is not None and r[0] == "prim":
                 lean, classes, ty, _wd = r[1]
                 return [lean + self.args(args, classes, "%s.%s" % (rt, name))], ty
@@ -3352,6 +3511,44 @@ class EmitIO:
                     "htx": "`%s.file.m(..)` is the function `m` of the hash-table file" % h,
                     "lock": "`%s.0` is the file" % h}[kind]))
                 return self.seq(rest, tail, ctx)
+            if (e[0] == "call" and tuple(e[1]) in IO_CACHE_CTORS and pat[0] == "pvar" and ty is None and e[2]
+                    and e[2][0][0] == "path" and self.text(e[2][0]) in self.vf_texts):
+                # `let file_rc = VarFileKeyCache(file, PhantomData);` / `let mut file_nc = VarFileHtxCache::new(file);`: the cache
+                # struct around the VarFile as a local: `c.0` / `c.file` is the file, its data field a local variable
+                sname, fld = IO_CACHE_CTORS[tuple(e[1])]
+                c = pat[1]
+                if e[2][1:] != ([] if fld else [("path", ["PhantomData"])]):
+                    fail("%s: unsupported arguments of the constructor of `%s`" % (w, sname))
+                if c in self.vt or c in self.handles or c in self.caches or c != self.f.caches.get(sname):
+                    fail("%s: the cache struct `%s` hides a variable / is not the one found when the function was read" % (w, c))
+                if fld is None:
+                    self.caches[c] = (sname, None)
+                    self.notes.append("`let %s = %s(%s, PhantomData);` (the cache struct of the handle: it holds the file and no data)"
+                                      % (c, sname, self.text(e[2][0])))
+                    return self.seq(rest, tail, ctx)
+                key = c + "." + fld
+                ln = self.declare(key, "int", lean=io_ident(c + "_" + fld))
+                self.width[key] = "u64"
+                self.caches[c] = (sname, key)
+                self.vf_texts.add(c + ".file")
+                self.notes.append("`let mut %s = %s::new(%s);` (`%s.file` is the file; `%s.%s` is the local `%s`, 0 at first: `new` is pinned)"
+                                  % (c, sname, self.text(e[2][0]), c, c, fld, ln))
+                return ["let %s := 0" % ln] + self.seq(rest, tail, ctx)
+            if (e[0] == "match" and e[1][0] == "field" and e[1][2] == "buckets_size" and e[1][1][0] == "path"
+                    and len(e[1][1][1]) == 1 and self.vt.get(e[1][1][1][0]) == "dbparams"):
+                # `let buckets_size = match params.buckets_size { … };` of `HtxFile::open_with_params`: this statement is what the
+                # pure function `bucketsOf` of Funcs.lean is the translation of (`pick_let`: the first `let buckets_size = …` of
+                # the function; io_build_fn checks that there is one only); `none` = it panics (`capacity 0`)
+                if pat != ("pvar", "buckets_size") or ty is not None or not self.f.buckets_of:
+                    fail("%s: a `match` on `%s` that is not the statement `let buckets_size = match %s { … };` which `bucketsOf` "
+                         "(Funcs.lean) translates" % (w, self.text(e[1]), self.text(e[1])))
+                ln = self.declare("buckets_size", "int")
+                self.width["buckets_size"] = "u64"
+                self.f.remarks.append("`let buckets_size = match %s { … };` is `bucketsOf %s` of Funcs.lean (the translation of this "
+                                      "statement); `none` (`capacity_to_buckets_size(0)` panics) is the failure of the monad"
+                                      % (self.text(e[1]), self.names[e[1][1][1][0]]))
+                return ["let %s ← (match bucketsOf %s with | some tryVal => pure tryVal | none => %s)"
+                        % (ln, self.names[e[1][1][1][0]], self.f.failtxt)] + self.seq(rest, tail, ctx)
             inner_try = self.as_try(e)
             if inner_try is not None:
                 e = ("try", inner_try)
@@ -3416,7 +3613,10 @@ class EmitIO:
                     widths = IO_STRUCTS[r[1]]["pure"][e[2]][3]
             if isinstance(vty, tuple) and vty[0] == "option" and vty[1] is None:
                 fail("%s: `None` bound to a variable (its type is not evident)" % w)
-            return pre + ["let %s := %s" % (self.bind_pat(pat, vty, widths), t)] + self.seq(rest, tail, ctx)
+            bound = self.bind_pat(pat, vty, widths)
+            if e[0] in ("array", "repeat") and pat[0] == "pvar" and pat[1] != "_":
+                self.arrlen[pat[1]] = len(e[1]) if e[0] == "array" else e[2][1]      # a `[u8; N]`: its length is fixed
+            return pre + ["let %s := %s" % (bound, t)] + self.seq(rest, tail, ctx)
         if k == "assign":
             _, op, lhs, rhs = st
             v = io_target(lhs, w)
@@ -3433,6 +3633,7 @@ class EmitIO:
                 return ["let %s := %s" % (self.declare(v, fc, lean=ln), t)] + self.seq(rest, tail, ctx)
             if v not in self.vt or isinstance(self.vt[v], tuple):
                 fail("%s: unsupported assignment target" % w)
+            self.arrlen.pop(v, None)
             if v in self.alias:
                 fail("%s: assignment to `%s`, which stands for `%s`" % (w, v, self.alias[v]))
             for a, r in self.alias.items():
@@ -3515,6 +3716,18 @@ class EmitIO:
                     if r is not None and r[0] == "dropped":
                         self.notes.append(r[1])
                         return self.seq(rest, tail, ctx)
+                    if r is not None and r[0] == "readexact":
+                        # `file.read_exact(&mut buf)?;`: the whole array is overwritten by the next `buf.len()` bytes (IO_READ_EXACT)
+                        a = inner[3][0] if len(inner[3]) == 1 else None
+                        v = a[1][0] if (a is not None and a[0] == "path" and len(a[1]) == 1) else None
+                        if v is None or self.vt.get(v) != "bytes" or v not in self.arrlen:
+                            fail("%s: `%s.read_exact(..)`: the argument is not a local byte array declared as `let mut buf = "
+                                 "[0u8, …];` (its length is the number of bytes read)" % (w, self.text(inner[1])))
+                        if v in self.alias or any(r_ == v and a_ in self.vt for a_, r_ in self.alias.items()):
+                            fail("%s: `read_exact` into `%s`, which shares its value with another variable" % (w, v))
+                        self.forget(v)
+                        self.pristine.discard(v)
+                        return ["let %s ← %s %d" % (self.names[v], IO_READ_EXACT, self.arrlen[v])] + self.seq(rest, tail, ctx)
                 lines, vty = self.mex(inner)
                 return io_attach("" if vty == "unit" else "let _ ← ", lines) + self.seq(rest, tail, ctx)
             if e[0] == "match":
@@ -3874,6 +4087,8 @@ def io_needs(node, f, table, handles=None):
             t = io_call_target(f, n, handles)
             if t is not None and t[0] in table:
                 out.update(io_map_ctx(x, t[1]) for x in table[t[0]].needs)
+        if n[0] == "call" and len(n[1]) == 1 and f.rel in IO_FREE_OWNER and (IO_FREE_OWNER[f.rel], n[1][0]) in table:
+            out.update(table[(IO_FREE_OWNER[f.rel], n[1][0])].needs)
     return [x for x in CTX_ORDER if x in out]
 
 
@@ -3886,6 +4101,8 @@ _VP_W = dict(_VP, size="-size")
 _KP_W = dict(_KP, size="-size")
 
 _PI_ST = "Nat × Nat × Nat"
+_IO_HS = "(file: &mut VarFile, signature2: HeaderSignature) -> Result<()>"
+_IO_OS = "(path: P, ks_name: &str, sig2: HeaderSignature, params: &FileDbParams,) -> Result<Self>"
 # the functions of FileOps.lean: (owner, rust name, file, Lean name, signature without the generic
 # parameter list, Lean names of the parameters [a piece struct: {field: Lean name}; the `&self` of a
 # piece struct comes first; `None` for the `&mut VarFile`], expected Lean signature,
@@ -4028,6 +4245,28 @@ IO_FUNCS = [
      "(c : FileCfg) : M (List (Nat × Nat))"),
     ("HtxFile", "htx_filling_rate_per_mill", IO_HTX, "htxFillingRatePerMillH", "(&self) -> Result<(u64, u32)>", [],
      "(bucketsSize : Nat) : M (Nat × Nat)"),
+    # ---- create / open: `set_file_length`, the header functions (free functions of key.rs / val.rs / htx.rs), the part of
+    #      `open_with_params` of the three handles after the buffer is built (IO_OPEN)
+    (VFO, "set_file_length", IO_VF, "setFileLength", "(&mut self, file_length: Offset<T>) -> Result<()>", ["len"], "(len : Nat) : M Unit"),
+    ("KeyFree", "write_keyrecf_init_header", IO_KEY, "keyWriteInitHeader", _IO_HS, [None, "signature2"],
+     "(signature2 : List Nat) : M Unit", {"assoc": True}),
+    ("KeyFree", "check_keyrecf_header", IO_KEY, "keyCheckHeader", _IO_HS, [None, "signature2"],
+     "(signature2 : List Nat) : M Unit", {"assoc": True}),
+    ("ValFree", "write_valrecf_init_header", IO_VAL, "valWriteInitHeader", _IO_HS, [None, "signature2"],
+     "(signature2 : List Nat) : M Unit", {"assoc": True}),
+    ("ValFree", "check_valrecf_header", IO_VAL, "valCheckHeader", _IO_HS, [None, "signature2"],
+     "(signature2 : List Nat) : M Unit", {"assoc": True}),
+    ("HtxFree", "write_htxf_init_header", IO_HTX, "htxWriteInitHeader",
+     "(file: &mut VarFile, signature2: HeaderSignature, buckets_size: u64,) -> Result<()>", [None, "signature2", "bucketsSize"],
+     "(signature2 : List Nat) (bucketsSize : Nat) : M Unit", {"assoc": True}),
+    ("HtxFree", "check_htxf_header", IO_HTX, "htxCheckHeader", _IO_HS, [None, "signature2"],
+     "(signature2 : List Nat) : M Unit", {"assoc": True}),
+    ("KeyFileOpen", "open_with_params", IO_KEY, "keyOpen", _IO_OS, [None, None, "sig2", None], "(sig2 : List Nat) : M Unit",
+     {"assoc": True, "open": "key"}),
+    ("ValueFileOpen", "open_with_params", IO_VAL, "valOpen", _IO_OS, [None, None, "sig2", None], "(sig2 : List Nat) : M Unit",
+     {"assoc": True, "open": "val"}),
+    ("HtxFileOpen", "open_with_params", IO_HTX, "htxOpen", _IO_OS, [None, None, "sig2", "p"],
+     "(sig2 : List Nat) (p : HashBucketsParam) : M Nat", {"assoc": True, "open": "htx"}),
 ]
 
 # the engine (dbxxx.rs `FileDbXxxInner<KT>`) -> Engine.lean, monad `DbM` over the three files.
@@ -4350,17 +4589,56 @@ def io_wrappers(repo, feats, relpath, header, inner_owner, done):
     return out
 
 
-def io_pin_engine(repo, feats):
-    io_pin_tokens(repo, IO_DBX, "pub struct FileDbXxxInner",
-                  "#[derive(Debug)] pub struct FileDbXxxInner<KT: DbMapKeyType> { dirty: bool, key_file: key::KeyFile<KT>, "
-                  "val_file: val::ValueFile, htx_file: htx::HtxFile, _phantom: std::marker::PhantomData<KT>, }",
-                  "the definition of `FileDbXxxInner`")
+def io_pin_handles(repo):
+    """the handles of the two record files: a shared `RefCell` around the cache struct"""
     io_pin_tokens(repo, IO_KEY, "pub struct KeyFile",
                   "#[derive(Debug, Clone)] pub struct KeyFile<KT: DbMapKeyType>(pub Rc<RefCell<VarFileKeyCache<KT>>>);",
                   "the definition of `KeyFile`")
     io_pin_tokens(repo, IO_VAL, "pub struct ValueFile",
                   "#[derive(Debug, Clone)] pub struct ValueFile(Rc<RefCell<VarFileValueCache>>);",
                   "the definition of `ValueFile`")
+
+
+def io_pin_open(repo, feats, pure_names):
+    """what the translation of the create / open path assumes: `HeaderSignature`, `read_exact` / `write_all` on the VarFile are
+    std's default loops over `buf_file.read` / `buf_file.write`, `VarFileHtxCache::new`, `FileDbParams::buckets_size`"""
+    for rel in (IO_KEY, IO_VAL, IO_HTX):
+        io_pin_tokens(repo, rel, "type HeaderSignature", "type HeaderSignature = [u8; 8];", "the definition of `HeaderSignature`")
+    for header, bodies in (
+            ("impl Read for VarFile", {"read": "fn read(&mut self, buf: &mut [u8]) -> Result<usize> { self.buf_file.read(buf) }"}),
+            ("impl Write for VarFile", {"write": "fn write(&mut self, buf: &[u8]) -> Result<usize> { #[cfg(abyssiniandb_verif)] "
+                                                 'super::verif::io_trace(self.buf_file.name(), "write"); self.buf_file.write(buf) }',
+                                        "flush": None})):
+        ms = io_find_methods(repo, feats, IO_VF, header)
+        if sorted(ms) != sorted(bodies):
+            fail("%s::<%s>: its methods are `%s`; `read_exact` / `write_all` are translated as std's default loops over "
+                 "`read` / `write`, which must be the only methods (%s)" % (IO_VF, header, "`, `".join(sorted(ms)), ", ".join(sorted(bodies))))
+        for m, body in bodies.items():
+            if body is not None and (len(ms[m]) != 1 or [v for _k, v in ms[m][0][0]] != [v for _k, v in tokenize(body)]):
+                fail("%s::<%s>::%s is not `%s`" % (IO_VF, header, m, body))
+    ms = io_find_methods(repo, feats, IO_HTX, "impl VarFileHtxCache").get("new", [])
+    want = ('fn new(file: VarFile) -> Self { Self { file, buckets_size: 0, #[cfg(feature = "htx_print_hits")] hits: 0, '
+            '#[cfg(feature = "htx_print_hits")] miss: 0, } }')
+    if len(ms) != 1 or [v for _k, v in ms[0][0]] != [v for _k, v in tokenize(want)]:
+        fail("%s::<impl VarFileHtxCache>::new is not `%s`" % (IO_HTX, want))
+    io_pin_tokens(repo, IO_MOD_RS, "pub enum HashBucketsParam",
+                  "#[derive(Debug, Clone)] pub enum HashBucketsParam { BucketsSize(u64), Capacity(u64), Default, }",
+                  "the definition of `HashBucketsParam`")
+    src = strip_comments(open(os.path.join(repo, IO_MOD_RS)).read())
+    m = re.search(r"pub\s+struct\s+FileDbParams\s*\{(.*?)\}", src, re.S)
+    if not m or len(re.findall(r"\bpub\s+buckets_size\s*:\s*HashBucketsParam\s*,", m.group(1))) != 1:
+        fail("%s: `FileDbParams` has no field `pub buckets_size: HashBucketsParam`" % IO_MOD_RS)
+    io_pin_handles(repo)
+    if "bucketsOf" not in pure_names:
+        fail("%s::<impl HtxFile>::open_with_params: the translation `bucketsOf` of `let buckets_size = …` is not in Funcs.lean" % IO_HTX)
+
+
+def io_pin_engine(repo, feats):
+    io_pin_tokens(repo, IO_DBX, "pub struct FileDbXxxInner",
+                  "#[derive(Debug)] pub struct FileDbXxxInner<KT: DbMapKeyType> { dirty: bool, key_file: key::KeyFile<KT>, "
+                  "val_file: val::ValueFile, htx_file: htx::HtxFile, _phantom: std::marker::PhantomData<KT>, }",
+                  "the definition of `FileDbXxxInner`")
+    io_pin_handles(repo)
     io_pin_tokens(repo, IO_MOD, "fn _cold", "#[inline] #[cold] fn _cold() {}", "the definition of `_cold`")
     src = strip_comments(open(os.path.join(repo, "src/lib.rs")).read())
     if len(re.findall(r"fn\s+cmp_u8\(&self,\s*other:\s*&\[u8\]\)\s*->\s*std::cmp::Ordering;", src)) != 1:
@@ -4415,9 +4693,9 @@ def io_build_fn(repo, feats, methods, spec, engine):
     if "impl" in opts:
         header = opts["impl"]
     state = owner if (owner in IO_STRUCTS and IO_STRUCTS[owner].get("state")) else None
-    where = "%s::<%s>::%s" % (rel, header, rust)
+    where = "%s::<%s>::%s" % (rel, header, rust) if header is not None else "%s::%s" % (rel, rust)
     if (rel, header) not in methods:
-        methods[(rel, header)] = io_find_methods(repo, feats, rel, header)
+        methods[(rel, header)] = io_find_methods(repo, feats, rel, header) if header is not None else io_find_free_fns(repo, feats, rel)
     cands = methods[(rel, header)].get(rust, [])
     if len(cands) != 1:
         fail("%s: %d definitions with a true `#[cfg]` (exactly one expected)" % (where, len(cands)))
@@ -4458,10 +4736,16 @@ def io_build_fn(repo, feats, methods, spec, engine):
     f.eng_self = engine and state is None                         # `self` is the `FileDbXxxInner`
     f.handle_params = {}                                          # parameter -> kind of handle (`dbmap`, `piecea`)
     f.lock = IO_LOCKS.get(owner)
+    f.open_kind = opts.get("open")                                # `open_with_params` of a handle (IO_OPEN)
+    f.caches = {}                                                 # cache struct -> the local that holds it
+    f.buckets_of = False
     if rtxt == "Self" and state and recv is None:
         # the constructor of an iterator struct: its value is the state tuple
         f.ret = ("struct", state)
         ret_fields = [x for x, _c in IO_STRUCTS[state]["fields"]]
+    elif rtxt == "Self" and f.open_kind:
+        # the handle is represented by the data of its cache struct (EmitIO.handle_value)
+        f.ret = IO_OPEN[f.open_kind][2]
     else:
         f.ret = io_sig_type(rtxt, where)
     f.ret_fields, f.ret_omitted = None, None
@@ -4521,6 +4805,17 @@ def io_build_fn(repo, feats, methods, spec, engine):
             if not isinstance(ln, str):
                 fail("%s: configuration error: Lean name of `%s`" % (where, prust))
             f.params.append(IoParam(prust, cls, lean=ln, width=pt if pt in WIDTH else None))
+        elif cls == "unused":
+            # a parameter that only the pinned and dropped part of `open_with_params` reads: no Lean parameter, not a variable
+            if ln is not None or not f.open_kind:
+                fail("%s: configuration error: parameter `%s`" % (where, prust))
+            f.params.append(IoParam(prust, cls))
+        elif cls == "dbparams":
+            # `params: &FileDbParams`: its field `buckets_size` is the Lean parameter (none where the translated part does
+            # not read it)
+            if not f.open_kind or not (ln is None or isinstance(ln, str)):
+                fail("%s: configuration error: parameter `%s`" % (where, prust))
+            f.params.append(IoParam(prust, cls, lean=ln))
         elif cls in ("dbmap", "piecea"):
             # a handle: the map behind the iterator (the state of `DbM`, no Lean parameter), the trait object of a file
             if ln is not None or not state or IO_STRUCTS[state]["handles"].get(prust) != cls:
@@ -4532,13 +4827,54 @@ def io_build_fn(repo, feats, methods, spec, engine):
     no_vf = engine or (state is not None)
     if len(f.vf_texts) != (0 if no_vf else 1):
         fail("%s: %d expressions denote the VarFile (exactly one expected)" % (where, len(f.vf_texts)))
-    p = P(toks[ib:], feats, where)
+    btoks = toks[ib:]
+    if f.open_kind:
+        # the statements in front of `let file_length …`: compared with the configured text, dropped
+        subst, cache, _cls = IO_OPEN[f.open_kind]
+        depth, cuts = 0, []
+        for j, (_k, v) in enumerate(btoks):
+            if v in ("{", "(", "["):
+                depth += 1
+            elif v in ("}", ")", "]"):
+                depth -= 1
+            elif depth == 1 and v == "let" and btoks[j + 1][1] == "file_length":
+                cuts.append(j)
+        if len(cuts) != 1:
+            fail("%s: %d statements `let file_length …` at the top of the body (exactly one expected)" % (where, len(cuts)))
+        got = io_strip_tc([v for _k, v in btoks[1:cuts[0]]])
+        want = io_strip_tc([v for _k, v in tokenize(IO_OPEN_PREFIX % subst)])
+        if got != want:
+            k_ = next((i for i, (a_, b_) in enumerate(zip(got, want)) if a_ != b_), min(len(got), len(want)))
+            fail("%s: the statements in front of `let file_length …` (piece manager, path, `OpenOptions`, the `match params.%s_buf_size` "
+                 "that builds the buffer) are not the ones the translation is configured for; first difference at token %d: "
+                 "`… %s` (source) / `… %s` (configured)" % (where, subst["ext"], k_, " ".join(got[max(0, k_ - 3):k_ + 4]),
+                                                           " ".join(want[max(0, k_ - 3):k_ + 4])))
+        btoks = [btoks[0]] + btoks[cuts[0]:]
+        f.pre_notes.append("the statements in front of `let file_length …`, compared token-wise with the configured text on every run: "
+                           "`let piece_mgr = PieceMgr::new(&%s, &%s);` (the `FileCfg` of the file), the path `<path>/{ks_name}.%s`, "
+                           "`OpenOptions::new().read(true).write(true).create(true).truncate(false).open(pb)?`, `let mut file = match "
+                           "params.%s_buf_size { … };` (the buffer around the file: `VarFile::with_capacity` / `with_per_mille` / `new`)"
+                           % (subst["fo"], subst["sa"], subst["ext"], subst["ext"]))
+    p = P(btoks, feats, where)
     p.keep_try = True
     f.body = p.block()
-    if p.i != len(toks) - ib:
+    if p.i != len(btoks):
         fail("%s: tokens after the body" % where)
     f.dropped = p.dropped
     f.kept = p.kept
+    if f.open_kind:
+        # the local cache struct around the file: `<c>.file` denotes the VarFile from its declaration on
+        for n in io_walk(f.body):
+            if n[0] == "let" and n[3][0] == "call" and tuple(n[3][1]) in IO_CACHE_CTORS and n[1][0] == "pvar":
+                sname, fld = IO_CACHE_CTORS[tuple(n[3][1])]
+                if sname in f.caches or sname != IO_OPEN[f.open_kind][1]:
+                    fail("%s: `%s` is built more than once / is not the cache struct of this handle" % (where, sname))
+                f.caches[sname] = n[1][1]
+                if fld is not None:
+                    f.vf_texts.add(n[1][1] + ".file")
+        # `bucketsOf` (Funcs.lean) is the translation of the first `let buckets_size = …` of this function: there is one only
+        nlet = sum(1 for j in range(len(toks) - 2) if [t_[1] for t_ in toks[j:j + 3]] == ["let", "buckets_size", "="])
+        f.buckets_of = f.open_kind == "htx" and nlet == 1
     if owner == "HtxFile":
         # `let mut locked = RefCell::borrow_mut(&self.0);` opens every method: the VarFile is `locked.file`,
         # the field `locked.buckets_size` is the context parameter `bucketsSize`
@@ -4590,6 +4926,10 @@ def io_translate(fns, specs, done, order):
         for n in io_walk(f.body):
             if n[0] == "mcall":
                 k = io_callee_key(f, n)
+                if k in fns and k not in f.calls:
+                    f.calls.append(k)
+            if n[0] == "call" and len(n[1]) == 1 and f.rel in IO_FREE_OWNER:
+                k = (IO_FREE_OWNER[f.rel], n[1][0])              # a free function of the same file
                 if k in fns and k not in f.calls:
                     f.calls.append(k)
 
@@ -4661,6 +5001,7 @@ def emit_fileops(repo, feats, out, pure_names, const_srcs):
     io_pin_structs(repo, feats, pure_names)
     io_pin_htx(repo, feats, const_srcs)
     io_pin_stats(repo, feats, pure_names)
+    io_pin_open(repo, feats, pure_names)
     methods = {}
     fns = {}
     for spec in IO_FUNCS:
@@ -4691,6 +5032,77 @@ def emit_fileops(repo, feats, out, pure_names, const_srcs):
     return len(order), done, methods
 
 
+# `FileDbXxxInner::open_with_params`: the three files are opened in this order; (field, module, handle type, owner of the
+# translated `open_with_params`, lift into `DbM`)
+ENG_OPEN_ORDER = [("key_file", "key", "KeyFile", "KeyFileOpen", "liftKey"), ("val_file", "val", "ValueFile", "ValueFileOpen", "liftVal"),
+                  ("htx_file", "htx", "HtxFile", "HtxFileOpen", "liftHtx")]
+
+
+def emit_open_map(repo, feats, done, methods):
+    """dbxxx.rs `FileDbXxxInner::open_with_params` -> `openMap`: the body is required to be exactly the three
+    `let <f>_file = <mod>::<Handle>::open_with_params(&path, ks_name, KT::signature(), &params)?;` in the order key, value,
+    table file and `Ok(Self { key_file, val_file, htx_file, dirty: true, _phantom: std::marker::PhantomData })`; each
+    statement becomes the lifted call of the translated `open_with_params` of that handle (FileOps.lean); the map is
+    represented by the data of its handles: the `buckets_size` of the table file"""
+    where = "%s::<%s>::open_with_params" % (IO_DBX, _ENG_I)
+    if (IO_DBX, _ENG_I) not in methods:
+        methods[(IO_DBX, _ENG_I)] = io_find_methods(repo, feats, IO_DBX, _ENG_I)
+    cands = methods[(IO_DBX, _ENG_I)].get("open_with_params", [])
+    if len(cands) != 1:
+        fail("%s: %d definitions with a true `#[cfg]` (exactly one expected)" % (where, len(cands)))
+    toks, blockdesc = cands[0]
+    recv, params, ret, ib = io_parse_sig(toks, where, assoc=True)
+    if recv is not None or params != [("path", "P"), ("ks_name", "&str"), ("params", "FileDbParams")] or ret != "Result<FileDbXxxInner<KT>>":
+        fail("%s: signature is not `(path: P, ks_name: &str, params: FileDbParams) -> Result<FileDbXxxInner<KT>>`" % where)
+    src = strip_comments(open(os.path.join(repo, "src/lib.rs")).read())
+    if len(re.findall(r"fn\s+signature\(\)\s*->\s*\[u8;\s*8\];", src)) != 1:
+        fail("src/lib.rs: `DbMapKeyType::signature() -> [u8; 8]` not found")
+    pp = P(toks[ib:], feats, where)
+    pp.keep_try = True
+    body = pp.block()
+    if pp.i != len(toks) - ib or pp.dropped or pp.kept:
+        fail("%s: tokens after the body / `#[cfg]` statements" % where)
+    lets = [st for st in body[1] if st[0] == "let"]
+    if len(lets) != len(body[1]) or len(lets) != len(ENG_OPEN_ORDER):
+        fail("%s: the body is not %d `let` statements and a value" % (where, len(ENG_OPEN_ORDER)))
+    order = [st[1][1] if st[1][0] == "pvar" else "?" for st in lets]
+    if order != [x[0] for x in ENG_OPEN_ORDER]:
+        fail("%s: the files are opened in the order `%s`, the translation (and the model `Abyss.openAccepts`: key file, value file, "
+             "table file) is configured for `%s`" % (where, "`, `".join(order), "`, `".join(x[0] for x in ENG_OPEN_ORDER)))
+    lines = []
+    for st, (fld, mod, hty, owner, lift) in zip(lets, ENG_OPEN_ORDER):
+        want = ("let", ("pvar", fld), None,
+                ("try", ("call", [mod, hty, "open_with_params"],
+                         [("path", ["path"]), ("path", ["ks_name"]), ("call", ["KT", "signature"], []), ("path", ["params"])])), False)
+        if st != want:
+            fail("%s: the statement that binds `%s` is not `let %s = %s::%s::open_with_params(&path, ks_name, KT::signature(), &params)?;`"
+                 % (where, fld, fld, mod, hty))
+        g = done.get((owner, "open_with_params"))
+        if g is None or [(p_.rust, p_.cls) for p_ in g.params] != [("path", "unused"), ("ks_name", "unused"), ("sig2", "bytes"),
+                                                                    ("params", "dbparams")] or g.needs:
+            fail("%s: `%s::%s::open_with_params` is not translated with the parameters (path, ks_name, sig2, params)" % (where, mod, hty))
+        call = "%s (%s sig2%s)" % (lift, g.lean, " p" if g.params[3].lean is not None else "")
+        if g.ret == "unit":
+            lines.append(call)
+        elif g.ret == "int" and fld == "htx_file":
+            lines.append("let htxFileBucketsSize ← " + call)
+        else:
+            fail("%s: the handle `%s` has data of class %r" % (where, fld, g.ret))
+    want_tail = ("call", ["Ok"], [("structlit", "Self", [[x[0], ("path", [x[0]])] for x in ENG_OPEN_ORDER] + [
+        ["dirty", ("path", ["true"])], ["_phantom", ("path", ["std", "marker", "PhantomData"])]])])
+    if body[2] != want_tail:
+        fail("%s: the value is not `Ok(Self { key_file, val_file, htx_file, dirty: true, _phantom: std::marker::PhantomData, })`" % where)
+    lines.append("pure htxFileBucketsSize")
+    doc = ("%s %s, `fn open_with_params` (signature, the three statements, their order and the struct literal are compared with the "
+           "configured shape on every run). `path`, `ks_name` and the buffer sizes of `params` only reach the parts of the three "
+           "`open_with_params` that are pinned and dropped (FileOps.lean); `KT::signature()` is the parameter `sig2` (`KeyType.sig`: "
+           "`sigString`, … of Consts.lean), `params.buckets_size` the parameter `p`. Value: the map `Self { key_file, val_file, "
+           "htx_file, dirty: true, _phantom }` is the three files of `DbM` and the data of its handles: the `buckets_size` of the "
+           "table file (the `bucketsSize` parameter of the other functions of this file); `dirty: true` is `dirtyAtOpen` of "
+           "FlushOps.lean." % (IO_DBX, blockdesc))
+    return "/-- %s -/\ndef openMap (sig2 : List Nat) (p : HashBucketsParam) : DbM Nat := do\n%s\n\n" % (doc, "\n".join(ind(lines)))
+
+
 def emit_engine(repo, feats, out, done, methods):
     io_pin_engine(repo, feats)
     io_pin_piece_iters(repo, feats, methods)
@@ -4709,16 +5121,18 @@ def emit_engine(repo, feats, out, done, methods):
     io_translate(fns, ENG_FUNCS, done, order)
     if sorted(f.rust for f in order) != sorted(x[1] for x in ENG_FUNCS) or len(done) != nfile + len(ENG_FUNCS):
         fail("Engine: the set of emitted functions is not the configured one")
-    if len(set(f.lean for f in done.values())) != len(done):
+    if len(set(f.lean for f in done.values())) != len(done) or "openMap" in set(f.lean for f in done.values()):
         fail("Engine: two functions with the same Lean name")
+    open_map = emit_open_map(repo, feats, done, methods)
     with open(os.path.join(out, "Engine.lean"), "w") as fh:
         fh.write("import Abyss.DbM\nimport Abyss.Gen.FileOps\n")
         fh.write(ENG_HEADER)
         fh.write("set_option linter.unusedVariables false\n\nnamespace Abyss.Gen\nopen Abyss.FileM (M)\n"
                  "open Abyss.DbM (liftHtx liftKey liftVal)\n\n")
         io_write_fns(fh, order)
+        fh.write(open_map)
         fh.write("end Abyss.Gen\n")
-    return len(order)
+    return len(order) + 1
 
 
 # ----------------------------------------------------------------------------- flush / sync and the dirty flag
@@ -4909,7 +5323,7 @@ structure PieceA where
 ENG_HEADER = """/-! GENERATED by tools/rs2lean.py from /repo — do not edit.
 The engine: the methods of `FileDbXxxInner<KT>` (src/filedb/inner/dbxxx.rs: `load_value`, `store_value_on_insert`,
 `relink_moved_key_piece`, `find_in_hash_buckets_kt`, `len`, `get_kt`, `put_kt`, `del_kt`, `includes_key_kt`), the
-iterator `DbXxxIterMut<KT>` and the statistics calls of `CheckFileDbMap` as
+iterator `DbXxxIterMut<KT>`, the statistics calls of `CheckFileDbMap` and `open_with_params` (`openMap`) as
 functions in `Abyss.DbM` (Abyss/DbM.lean): state = the three flat files (`htx`, `key`, `val`), failure = `Err` /
 panic / a loop out of fuel.  The rules of FileOps.lean apply; in addition:
 
@@ -4957,6 +5371,12 @@ panic / a loop out of fuel.  The rules of FileOps.lean apply; in addition:
   `[]` (`#[derive(Default)]` of the tuple struct around the `Vec`, pinned), `v.touch_size(x);` / `v.touch_length(x);`
   re-bind `v := touchSize v x` / `touchLength v x` (Funcs.lean).  `self.key_file.m()` with `m` not a plain wrapper is
   the translated method `m` of the handle (`count_of_free_key_piece`).
+* `openMap`: `FileDbXxxInner::open_with_params`.  Its body must be exactly the three statements
+  `let key_file = key::KeyFile::open_with_params(&path, ks_name, KT::signature(), &params)?;`, `let val_file = val::ValueFile::…`,
+  `let htx_file = htx::HtxFile::…` in this order (key file, value file, table file: the order of the model `Abyss.openAccepts`)
+  and `Ok(Self { key_file, val_file, htx_file, dirty: true, _phantom: std::marker::PhantomData })`; each statement is
+  `liftKey (keyOpen sig2)` / `liftVal (valOpen sig2)` / `liftHtx (htxOpen sig2 p)` (FileOps.lean); the value is the
+  `buckets_size` of the table file (the map is the three files of `DbM`; of its handles only `HtxFile` carries data).
 -/
 """
 
@@ -4964,7 +5384,7 @@ IO_HEADER = """/-! GENERATED by tools/rs2lean.py from /repo — do not edit.
 Byte-level I/O of the record files: the `&mut self` methods of `VarFile`
 (src/filedb/inner/vfile.rs, src/filedb/inner/piece.rs) and the piece-level I/O of the value file and the
 key file (src/filedb/inner/val.rs `ValuePiece`, `VarFileValueCache`; src/filedb/inner/key.rs `KeyPiece<KT>`,
-`VarFileKeyCache<KT>`) as functions in `Abyss.FileM.M`.
+`VarFileKeyCache<KT>`) as functions in `Abyss.FileM.M`; the hash-table file; the statistics; the create / open path.
 
 * `Result<T>` with `?` is the failure of the monad; `Ok(e)` is `pure e`; `.map(|v| e)` is bind + pure;
   `assert!(c)` is `if !c then FileM.fail`.
@@ -5022,6 +5442,27 @@ key file (src/filedb/inner/val.rs `ValuePiece`, `VarFileValueCache`; src/filedb/
   `Vec::new()` of pairs with `v.push((a, b));` is a `List (Nat × Nat)` (`v ++ [(a, b)]`).
   `count_of_free_key_piece` / `count_of_free_value_piece` are methods of the handles `KeyFile<KT>` / `ValueFile`
   (`let mut locked = self.0.borrow_mut();` pinned and dropped, `locked.0` is the file).
+* create / open.  `set_file_length` is `self.buf_file.set_len(n)` = `FileM.setLen n` (truncate / extend with zeros, the
+  cursor clamped).  The free functions `write_keyrecf_init_header`, `check_keyrecf_header`, `write_valrecf_init_header`,
+  `check_valrecf_header`, `write_htxf_init_header`, `check_htxf_header` (`file: &mut VarFile` is the file of the monad;
+  `HeaderSignature` = `[u8; 8]`, pinned, is a `List Nat`): `[0u8, …]` / `[0u8; N]` are the lists, `DAT_HEADER_SIGNATURE` /
+  `HTX_HEADER_SIGNATURE` the constants `keySig1` / `valSig1` / `htxSig1` of Consts.lean, `a == b` on byte arrays is `==` on
+  the lists, `assert!(c, msg)` is `if !c then FileM.fail`.  `file.read_exact(&mut buf)?;` with `buf` a local array
+  `let mut buf = [0u8, …];` of `N` elements is `let buf ← FileM.readPad N`: `impl Read for VarFile` has `read` =
+  `self.buf_file.read(buf)` only (checked), so `read_exact` is std's default loop over rabuf's `read`, which copies out of
+  the chunk of the cursor, never returns 0 bytes and does not look at the end of the file (`RaBuf.read` / `RaBuf.readExact`):
+  at the end of a short file the buffer is filled with the zero padding of the chunk, there is no `UnexpectedEof`.  The
+  strict `FileM.readBytes` would be wrong here.  (`write_all` likewise: `impl Write for VarFile` has `write` and `flush` only.)
+  `KeyFile<KT>::open_with_params` -> `keyOpen`, `ValueFile::open_with_params` -> `valOpen`, `HtxFile::open_with_params` ->
+  `htxOpen`: only the part from `let file_length … = file.seek_to_end()?;` on is translated; the statements in front of it
+  (the piece manager, the path, `OpenOptions`, the `match params.<f>_buf_size` that builds the buffer `file`) are compared
+  token-wise with the configured text on every run and dropped; `path`, `ks_name` are no parameters, `params` is its field
+  `buckets_size` (`p : HashBucketsParam`; no parameter where the translated part does not read it).  A local cache struct
+  around the file (`let file_rc = VarFileKeyCache(file, PhantomData);`, `let mut file_nc = VarFileHtxCache::new(file);`,
+  constructor pinned: `buckets_size: 0`) is erased: `file_nc.file` is the file, `file_nc.buckets_size` a local variable; the
+  value `Ok(Self(Rc::new(RefCell::new(c))))` (the handle) is the data of `c`: `()` resp. the `buckets_size`.
+  `let buckets_size = match params.buckets_size { … };` is `bucketsOf p` of Funcs.lean (the translation of exactly this
+  statement; `none` = `capacity_to_buckets_size(0)` panics = `FileM.fail`).
 -/
 """
 
